@@ -129,6 +129,12 @@ func newC10Disp(st string) (*c10Disp, error) {
 			mu.Lock()
 			defer mu.Unlock()
 			d.be = scripted.NewBackend(11)
+			if st == "keygen-init" {
+				d.be.InitDelay = 120 * time.Millisecond
+				d.be.Strict = true
+			} else if st == "keygen-sync2" {
+				d.be.Strict = true
+			}
 			return d.be
 		},
 		func(uint16) tss.Signer { mu.Lock(); defer mu.Unlock(); d.be = scripted.NewBackend(11); return d.be },
@@ -141,7 +147,7 @@ func newC10Disp(st string) (*c10Disp, error) {
 			stage++
 			s := stage
 			mu.Unlock()
-			if st == "keygen-sync" && s == 1 {
+			if (st == "keygen-sync" && s == 1) || (st == "keygen-sync2" && s == 2) {
 				<-ctx.Done()
 				return nil, ctx.Err()
 			}
@@ -156,6 +162,23 @@ func newC10Disp(st string) (*c10Disp, error) {
 	case "keygen-sync":
 		go d.sch.KeyGen(ctx, 3, 2)
 		time.Sleep(5 * time.Millisecond)
+	case "keygen-init":
+		// the first synchronisation completes at once; the back end's Init then takes 120 ms: the inputs arrive inside that window
+		go d.sch.KeyGen(ctx, 3, 2)
+		time.Sleep(25 * time.Millisecond)
+	case "keygen-sync2":
+		go d.sch.KeyGen(ctx, 3, 2)
+		for i := 0; i < 2000; i++ {
+			mu.Lock()
+			be, s2 := d.be, stage
+			mu.Unlock()
+			if be != nil && s2 >= 2 {
+				if n, _, _, _ := be.Snapshot(); n > 0 {
+					break
+				}
+			}
+			time.Sleep(200 * time.Microsecond)
+		}
 	case "keygen-protocol", "finished":
 		fin := make(chan struct{})
 		go func() { d.sch.KeyGen(ctx, 3, 2); close(fin) }()
